@@ -31,7 +31,23 @@ func genC11(r *rand.Rand, tier string, idx int) []string {
 		case x < 50:
 			g.mutate()
 		case x < 68:
-			g.commit()
+			if idx%6 == 5 && r.Intn(2) == 0 {
+				// Commit only RETURNS its batch; the caller writes it — with GC passes (and reads) in between
+				g.emit("commitb %d", r.Intn(8)-1)
+				for k := r.Intn(4); k > 0; k-- {
+					// (no node-resolving reads here: what the Commit collapsed to references exists only in the unwritten batch —
+					// the caller writes the batch before using the trie again; notes/C11.md)
+					g.emit([]string{"gc", "gc", "root"}[r.Intn(3)])
+				}
+				g.emit("wbatch")
+				g.commitd = map[string][]byte{}
+				for k, v := range g.live {
+					g.commitd[k] = v
+				}
+				g.dirty = false
+			} else {
+				g.commit()
+			}
 			for r.Intn(2) == 0 {
 				g.emit("gc")
 			}
